@@ -1,8 +1,9 @@
 (** Comparison functions used by the generated C01 case files.  The Num-polymorphic models are run on the
-    [NumD] instance (128-bit software floating point, exact comparisons, unbounded exponent). *)
+    [NumDF] instance (Model/DFast.v: NumD's 128-bit software floating point with exact comparisons and unbounded
+    exponent, plus a fast exponential on machine-word big integers). *)
 From Coq Require Import ZArith QArith Qabs List Bool.
 From Bignums Require Import BigZ.
-From Dadi Require Import Base.Num Base.NumQ Base.NumD Model.Equilibrium Model.Coalescent.
+From Dadi Require Import Base.Num Base.NumQ Base.NumD Model.DFast Model.Equilibrium Model.Coalescent.
 Import ListNotations.
 
 Definition z2D := map ZZ2D.
@@ -10,7 +11,7 @@ Definition Dtiny : D := mkD 1%bigZ (-1000)%bigZ.           (* 2^-1000 ~ 1e-301: 
 (** max_i |m_i - v_i| / (|m_i| + floor) *)
 Fixpoint Dmaxrel (floor : D) (m v : list D) : D :=
   match m, v with
-  | [], [] => n0
+  | [], [] => mkD 0 0
   | a :: m', b :: v' => let e := Ddiv (Dabs (Dsub a b)) (Dadd (Dabs a) floor) in
                         let r := Dmaxrel floor m' v' in if Dleb r e then e else r
   | _, _ => mkD 1%bigZ 100%bigZ
@@ -22,7 +23,7 @@ Definition Dppb (x : D) : Z := let q := D2Q (Dmul x (DofZ 1000000000)) in (Qnum 
 Record dens_case := { dn_xs : list (Z * Z); dn_nu : Q; dn_theta0 : Q; dn_gamma : Q; dn_h : Q; dn_beta : Q;
                       dn_impl : list (Z * Z) }.
 Definition dens_model (K sub : nat) (c : dens_case) : list D :=
-  phi_1D (quad_geom K sub) (z2D (dn_xs c)) (Q2D (dn_nu c)) (Q2D (dn_theta0 c)) (Q2D (dn_gamma c)) (Q2D (dn_h c)) (Q2D (dn_beta c)).
+  @phi_1D D NumDF (@quad_geom D NumDF K sub) (z2D (dn_xs c)) (Q2D (dn_nu c)) (Q2D (dn_theta0 c)) (Q2D (dn_gamma c)) (Q2D (dn_h c)) (Q2D (dn_beta c)).
 Definition dens_check (K sub : nat) (tol : Q) (c : dens_case) : bool * Z :=
   let m := dens_model K sub c in
   let e := Dmaxrel Dtiny m (z2D (dn_impl c)) in
@@ -33,7 +34,7 @@ Record hist_case := { hc_n : nat; hc_eps : list (bool * Q * Q * Q); hc_theta : Q
 Definition to_epoch (e : bool * Q * Q * Q) : @epoch D :=
   let '(ex, a, b, t) := e in if ex then EExp (Q2D a) (Q2D b) (Q2D t) else EConst (Q2D a) (Q2D t).
 Definition hist_oracle (c : hist_case) : list D :=
-  coal_sfs_all (quad_geom 24 2) (Q2D (hc_theta c)) (map to_epoch (hc_eps c)) n1 (hc_n c).
+  @coal_sfs_all D NumDF (@quad_geom D NumDF 24 2) (Q2D (hc_theta c)) (map to_epoch (hc_eps c)) (mkD 1 0) (hc_n c).
 (** (max rel. error of the run at timescale_factor 1e-3, of the run at 1e-4), in units of 1e-9 *)
 Definition hist_check (c : hist_case) : Z * Z :=
   let o := hist_oracle c in
